@@ -115,6 +115,35 @@ CONTRACTS.append(Contract(
     descr="integer tokens >= 0, digits = 6",
 ))
 
+
+# ---- normalize_time: numbers as given; date-times through their UTC reading --------------------------------------------
+def _nt_setup(it, args):
+    from pyvc.values import SInt, SObj
+    utc, local = z3.Int("timegm(utc tuple)"), z3.Int("timegm(local tuple)")
+    tup_u, tup_l = SObj("utc time tuple"), SObj("local (wall clock) time tuple")
+    args["time"] = SObj("datetime", fields={"utctimetuple": SStub(lambda i, a, k: tup_u, "utctimetuple"), "timetuple": SStub(lambda i, a, k: tup_l, "timetuple")})
+    it.genv.vars["calendar"] = SObj("calendar", fields={"timegm": SStub(lambda i, a, k: SInt(utc) if i.resolve(a[0]) is tup_u else SInt(local), "calendar.timegm")})
+    return {"utc_seconds": SInt(utc)}
+
+
+CONTRACTS.append(Contract(
+    "normalize_time[int]", f"{T}::TOTP.normalize_time",
+    params={"cls": Obj(cls=(T, "TOTP"), is_class=True), "time": Int()},
+    ensures=[("an integer timestamp is used as given", "result == time")],
+))
+CONTRACTS.append(Contract(
+    "normalize_time[datetime]", f"{T}::TOTP.normalize_time",
+    params={"cls": Obj(cls=(T, "TOTP"), is_class=True), "time": Const(None)},
+    setup=_nt_setup,
+    ensures=[("a date-time (with or without time zone) denotes its UTC instant: seconds of its UTC time tuple, not of its wall-clock tuple", "result == utc_seconds")],
+    descr="any date-time object; calendar.timegm abstract",
+))
+
+# the HMAC the tokens are truncated from: proved under C11, shared here because RFC 4226/6238 define the token over HMAC(key, counter)
+from contracts import c11 as _c11  # noqa: E402
+
+CONTRACTS += [c for c in _c11.CONTRACTS if c.id == "compile_hmac"]
+FINITE = [f for f in _c11.FINITE if f.id == "hmac-pad-tables"]
 BOUNDED = [Bounded("c13", "harness/c13.py", descr="RFC reference over algorithms/digits/periods/times; key text encodings; datetime/float times")]
 
 MUTANTS = [
@@ -127,4 +156,5 @@ MUTANTS = [
     ("TotpToken start_time uses next counter", T, "        return self.totp._counter_to_time(self.counter)\n", "        return self.totp._counter_to_time(self.counter + 1)\n", "refute"),
     ("normalize_token pads to digits+1", T, "            token = \"%0*d\" % (digits, token)\n", "            token = \"%0*d\" % (digits + 1, token)\n", "refute"),
     ("harmless: digits local inlined", T, "        digits = self.digits\n        assert 0 < digits < 11, \"digits: sanity check failed\"\n", "        digits = self.digits\n        assert 11 > digits > 0, \"digits: sanity check failed\"\n", "hold"),
+    ("normalize_time: wall-clock tuple of a zone-aware date-time used", T, "            return calendar.timegm(time.utctimetuple())", "            return calendar.timegm(time.timetuple())", "refute", "normalize_time"),
 ]
